@@ -247,7 +247,9 @@ func init() {
 	mc.Register(&mc.ScenarioDef{Scn: scnReserve("reserve-cap"), Monitors: []mc.Monitor{monC01()}})
 	mc.Register(&mc.ScenarioDef{Scn: scnReserve("reserve-acct"), Monitors: []mc.Monitor{monC03()}})
 	mc.Register(&mc.ScenarioDef{Scn: scnReserve("reserve-si"), Monitors: []mc.Monitor{monC04()}})
-	mc.Register(&mc.ScenarioDef{Scn: scnCapBasic("si-basic", "fair"), Monitors: []mc.Monitor{monC04()}})
+	siBasic := scnCapBasic("si-basic", "fair")
+	siBasic.Alphabet = append(siBasic.Alphabet, "ASK_RELEASE") // an ask and its own release in one update
+	mc.Register(&mc.ScenarioDef{Scn: siBasic, Monitors: []mc.Monitor{monC04()}})
 	mc.Register(&mc.ScenarioDef{Scn: scnQueueMax("qmax-leaf", confMaxLeaf, nil), Monitors: []mc.Monitor{monC02()}})
 	mc.Register(&mc.ScenarioDef{Scn: scnQueueMax("qmax-parent", confMaxParent, nil), Monitors: []mc.Monitor{monC02()}})
 	mc.Register(&mc.ScenarioDef{Scn: scnQueueMax("qmax-dynamic", confMaxDynamic, []world.AppSpec{
